@@ -28,6 +28,72 @@ def maps_equal_mod_writer_view(prog, a, b):
     return None
 
 
+class Shadow:
+    """The dependency bookkeeping of the store, rebuilt from the tracker stream alone (require starts, read ends, write ends,
+    execution starts), kept across the sessions of a history.  It mirrors what the store keeps: the first kind of dependency per
+    (task, resource); reserved require edges from the moment the require starts; everything of a task dropped when it starts
+    executing again.  A read end (write end) that the implementation let happen although the recorded writer is not reachable
+    from the reader (a recorded reader does not reach the writer / another writer is recorded) is a violation of C05 (C06)."""
+    def __init__(self):
+        self.req = {}; self.reads = {}; self.writes = {}
+    def reach(self, a, b):
+        seen = set(); st = [a]
+        while st:
+            x = st.pop()
+            for y in self.req.get(x, ()):
+                if y == b: return True
+                if y not in seen:
+                    seen.add(y); st.append(y)
+        return False
+    def session(self, events, kinds):
+        out = []
+        stack = []
+        last_rs = None
+        for e in events:
+            f = e.split()
+            k = f[0]
+            if k == 'XS':
+                t = int(f[1]); stack.append(t)
+                self.req[t] = []; self.reads[t] = set(); self.writes[t] = set()
+                last_rs = None
+            elif k == 'XE':
+                if stack: stack.pop()
+                last_rs = None
+            elif k == 'RS' and stack:
+                t, x = stack[-1], int(f[1])
+                if x not in self.req.setdefault(t, []):
+                    self.req[t].append(x); last_rs = (t, x)
+                else:
+                    last_rs = None
+            elif k == 'rE' and stack:
+                t, r = stack[-1], f[1]
+                last_rs = None
+                ws = [x for x, rs in self.writes.items() if r in rs and x != t]
+                for x in ws:
+                    if not self.reach(t, x):
+                        out.append(('C05', 'hidden-read-undetected', 'task %d was handed a reader of R%s, which task %d has written, although nothing task %d required so far leads to task %d' % (t, r, x, t, x)))
+                if r not in self.writes.setdefault(t, set()):
+                    self.reads.setdefault(t, set()).add(r)
+            elif k == 'wE' and stack:
+                t, r = stack[-1], f[1]
+                last_rs = None
+                for x, rs in self.writes.items():
+                    if r in rs and x != t:
+                        out.append(('C06', 'overlap-undetected', 'task %d completed a write of R%s although task %d is recorded as its writer' % (t, r, x)))
+                for y, rs in self.reads.items():
+                    if r in rs and y != t and not self.reach(y, t):
+                        out.append(('C05', 'hidden-write-undetected', 'task %d completed a write of R%s, which task %d has read, although nothing task %d required leads to task %d' % (t, r, y, y, t)))
+                if r not in self.reads.setdefault(t, set()):
+                    self.writes.setdefault(t, set()).add(r)
+            elif k in ('rS', 'wS'):
+                pass
+        # a require whose reservation was refused (cycle) leaves no edge behind
+        if 'cycle' in kinds and last_rs is not None and events and events[-1].split()[0] == 'RS':
+            t, x = last_rs
+            if x in self.req.get(t, []): self.req[t].remove(x)
+        return out
+
+
 def exec_stack_ops(execlog):
     """-> list of executions in order of completion: (task, [ops], completed)"""
     stack = []
@@ -55,6 +121,7 @@ def run_oracles(prog, meta, sessions):
     had_abort = False
     latest_ops = {}
     prev_nodes = {}
+    shadow = Shadow()
     task_out = {}
     wf = prog.kind == 'wf'
     for si, s in enumerate(sessions):
@@ -85,6 +152,10 @@ def run_oracles(prog, meta, sessions):
                     if all('abort' not in x for x in s.fresh_all):
                         suffix, why = stale_owner_status(s, k, prev_nodes)
                         out.append(('C19', 'spurious-' + k + '-after-abort' + suffix, '%s: after an earlier abort, the incremental build aborted with %s although from-scratch builds of all known tasks (two orders) in the current state succeed%s' % (where, k, why)))
+
+        # ---- C05 / C06: every read / write that was let through must be justified by the dependencies recorded so far
+        for (pr, sig, m) in shadow.session(s.events, kinds):
+            out.append((pr, sig, '%s: %s' % (where, m)))
 
         # ---- C06: re-execution of the same writer is never an overlap
         if 'overlap' in kinds and s.events:
